@@ -235,6 +235,9 @@ def estimate(rep):
             ev = origin(local_defs(ns.node), ast.Name(id=m["ev"], ctx=ast.Load()))
             m2 = pmatch("[$ed.get($k) for $k in self._cfg.edge_attrs]", ev)
             ok = m2 is not None and pmatch(f"self._graph.get_edge_data({ns.params[1]}, {ns.params[2]}, default={{}})", origin(local_defs(ns.node), ast.Name(id=m2["ed"], ctx=ast.Load()))) is not None
+    if not ok and rets and isinstance(rets[-1].value, ast.Tuple) and rets[-1].value.elts and norm(rets[-1].value.elts[0]) == f"self._colors[{ns.params[2]}]" \
+            and any(isinstance(e_, ast.Starred) for e_ in rets[-1].value.elts[1:]):
+        ok = None   # colour first, then some bond values: how those are read is not one of the forms this rule knows - no evidence of a wrong signature
     rep.ob("O11.2", "R12", ns, ok, rets[-1] if rets else "return", "a neighbour contributes its colour and the selected bond attributes")
     ro = rep.f(AE, "AutoEst._refine_once")
     lp = [l for l in walk_local(ro.node) if isinstance(l, ast.For)]
